@@ -218,9 +218,16 @@ class ValueGen:
                 return ("str", bytes(r.choice(b"abc XYZ019,;[]{}()#:/~\n\t\r\"\\" + bytes([0xC3, 0xA9])) for _ in range(n)))
             if a < 0.7:
                 return ("char", r.choice([10, 32, 9, 13, 65, 97, 48, 0x3BB, 0x20AC, 0xE9, 40, 44, 59, 92, 34, 0x7E]))
+            # names that collide with, or nearly with, the reserved words and the number / tag syntax
+            tricky = ["nil", "true", "false", "nil?", "nilx", "ni", "tru", "truex", "fals", "falsey", "N", "M", "e", "inst", "uuid",
+                      "Inf", "NaN", "a.b", "x'", "-a", "+a", ".a", "a-1", "a1", "r", "x"]
             if a < 0.85:
-                return ("kw", r.choice([None, None, self.name()]), self.name())
-            return ("sym", r.choice([None, None, self.name()]), r.choice([self.name(), self.name(), "/", "+", "-", ".", "<=", "->x"]))
+                return ("kw", r.choice([None, None, self.name(), "nil", "true"]), r.choice([self.name(), self.name(), r.choice(tricky)]))
+            nm = r.choice([self.name(), self.name(), "/", "+", "-", ".", "<=", "->x", r.choice(tricky[3:])])
+            ns_ = r.choice([None, None, self.name(), "nil", "true", "false"])
+            if ns_ is None and nm in ("nil", "true", "false"):
+                nm += "?"
+            return ("sym", ns_, nm)
         n = r.choice([0, 1, 2, 3, 5])
         if r.random() < 0.25:
             # wide collections: around the builders' inline capacity and every doubling after it;
